@@ -15,6 +15,7 @@ From Coq Require Import ZArith.
 From TV Require Import Num.Num Num.QNum.
 From TV Require Model.Cache Model.EngineReal Proofs.EngineReal Model.EngineRealToy Model.BlockEngineRun Model.BlockEngineRealRun.
 From TV Require Model.EngineReplayReal Proofs.EngineReplayReal.
+From TV Require Num.F32 Model.Block Model.BlockAlg Model.BlockEngine Model.BlockEngineReal Model.TaffyKey Proofs.BlockEngineReal Proofs.TaffyKey.
 Import ListNotations.
 
 (* a memoised evaluation returns what the cache-free evaluation of the same skeleton returns, keeps every cache entry
@@ -431,6 +432,49 @@ Theorem C01_real_fresh_valid :
     gskel S Lay (rcache In Out) (fresh_real S In Out Lay zero_lay k) = k.
 Proof. intros. apply RValid_fresh. Qed.
 
+(* Wave 8a (second audit, finding 1): the INSTANCE the whole-tree correspondence of the block engine runs
+   (Model/BlockEngineRealRun.v: `blr_memo f32_seqb block_pre abs_child_block`), with NO premise about the key left: the ghost comparison
+   of complete inputs uses the representation equality of binary32 (Model/TaffyKey.v f32_seqb), which IS Leibniz equality
+   (Proofs/BlockEngineReal.v bin_eqb_with_eq + TaffyKey.f32_seqb_eq), and `b_is_outer` accepts nothing.  The class "no lossy hit" the
+   evidence counts (`trees_without_lossy_hit`) is counted with exactly this ghost.  With IEEE `==` (bin_eqb = bin_eqb_with eqb) the
+   premise of the general theorem is FALSE: C01_bin_eqb_not_leibniz (+0 and -0). *)
+Theorem C01_real_block_equals_exact_when_no_lossy_hit_partial :
+  forall (pre : Block.BStyle F32.f32 -> BlockAlg.BIn F32.f32 -> BlockAlg.BIn F32.f32) (abs_child : @BlockAlg.AbsChild F32.f32)
+         f (t : @BlockEngineReal.brtree F32.f32) i o t' fe te oe te',
+    RValid _ _ _ _ BlockAlg.bi_mode BlockEngine.bn_is_none BlockEngine.hidden_child_out (BlockEngine.bl_algo pre abs_child) t ->
+    BlockEngineReal.blr_memo TaffyKey.f32_seqb pre abs_child f t i = Some (o, t') ->
+    sum_stats _ _ _ n_lossy t' = sum_stats _ _ _ n_lossy t ->
+    Valid _ _ _ _ BlockAlg.bi_mode BlockEngine.bn_is_none BlockEngine.hidden_child_out (BlockEngine.bl_algo pre abs_child) te ->
+    skel _ _ _ _ te = gskel _ _ _ t ->
+    memo _ _ _ _ BlockAlg.bi_mode (BlockEngine.bin_eqb_with TaffyKey.f32_seqb) BlockEngine.bn_is_none BlockEngine.hidden_child_out
+         BlockEngine.zero_blay (BlockEngine.bl_algo pre abs_child) fe te i = Some (oe, te') ->
+    o = oe /\ RValid _ _ _ _ BlockAlg.bi_mode BlockEngine.bn_is_none BlockEngine.hidden_child_out (BlockEngine.bl_algo pre abs_child) t'
+    /\ gskel _ _ _ t' = gskel _ _ _ t.
+Proof.
+  intros pre abs_child f t i o t' fe te oe te' HV Hm Hl HVe Hs He.
+  eapply (@memo_real_equals_exact F32.f32 _); [| |exact HV|exact Hm|exact Hl|exact HVe|exact Hs|exact He].
+  - apply TV.Proofs.BlockEngineReal.bin_eqb_with_eq. exact TV.Proofs.TaffyKey.f32_seqb_eq.
+  - apply TV.Proofs.BlockEngineReal.b_is_outer_spec.
+Qed.
+
+(* the key that compares numbers as numbers is NOT an equality of inputs over binary32 (known width +0 vs -0) *)
+Theorem C01_bin_eqb_not_leibniz :
+  exists a b : BlockAlg.BIn F32.f32, BlockEngine.bin_eqb a b = true /\ a <> b /\ BlockEngine.bin_eqb_with TaffyKey.f32_seqb a b = false.
+Proof.
+  exists (BlockAlg.mkBIn PerformLayout true (Block.mkSize (Some (F32.f_of_bits 0)) None) Block.sz_none
+                         (Block.mkSize Block.MaxContent Block.MaxContent) (Block.mkLine false false)),
+         (BlockAlg.mkBIn PerformLayout true (Block.mkSize (Some (F32.f_of_bits 2147483648)) None) Block.sz_none
+                         (Block.mkSize Block.MaxContent Block.MaxContent) (Block.mkLine false false)).
+  split; [vm_compute; reflexivity|]. split; [|vm_compute; reflexivity].
+  intros E. assert (H : BlockEngine.bin_eqb_with TaffyKey.f32_seqb
+                          (BlockAlg.mkBIn PerformLayout true (Block.mkSize (Some (F32.f_of_bits 0)) None) Block.sz_none
+                                          (Block.mkSize Block.MaxContent Block.MaxContent) (Block.mkLine false false))
+                          (BlockAlg.mkBIn PerformLayout true (Block.mkSize (Some (F32.f_of_bits 2147483648)) None) Block.sz_none
+                                          (Block.mkSize Block.MaxContent Block.MaxContent) (Block.mkLine false false)) = false)
+    by (vm_compute; reflexivity).
+  rewrite <- E in H. vm_compute in H. discriminate.
+Qed.
+
 (* non-vacuity, computed (Model/EngineRealToy.v: 6 nodes, one display:none subtree; the key forgets the lowest bit of the input
    number): the premises of the transfer theorem hold for the instance; two passes with the same root input produce no lossy hit
    and return what the exact-key memo returns on the fresh tree (24) *)
@@ -488,6 +532,8 @@ Print Assumptions C01_real_traced_memo_is_gmemo.
 Print Assumptions C01_real_sound_when_no_lossy_hit.
 Print Assumptions C01_real_equals_exact_when_no_lossy_hit_partial.
 Print Assumptions C01_real_fresh_valid.
+Print Assumptions C01_real_block_equals_exact_when_no_lossy_hit_partial.
+Print Assumptions C01_bin_eqb_not_leibniz.
 Print Assumptions C01_real_lossy_hit_refuted.
 Print Assumptions C01_real_lossy_hit_refuted_on_a_block_tree.
 End RealCache.
@@ -678,6 +724,109 @@ Module TaffyRealInstance.
   Qed.
   Print Assumptions C01_real_taffy_equals_exact_when_no_lossy_hit_partial.
 End TaffyRealInstance.
+
+(* Wave 8a: TOTALITY of the engines the whole-tree correspondences run.  C01_memo_total needs "the algorithm addresses only existing
+   children" (Bounded); it was instantiated for the toy algorithms only, so every `... = Some ...` premise of the block / flex / grid /
+   taffy engine theorems rested on computed examples.  Bounded is now a THEOREM for the real algorithms (Proofs/BlockAlgBounded.v: every
+   Query / SetLayout of the block resumption addresses an item's node or the index of a display:none child; Proofs/FlexAlgBounded.v:
+   from C05_flex_algorithm_shape; Proofs/GridAlgBounded.v: the argument of C05_grid_algorithm_shape replayed -- the shape itself only says
+   "not display:none" for layout events -- incl. the panic stand-in), for every `Num`, every dispatch / preprocessing / leaf function and
+   every absolute-item routine that addresses only its own node.  Hence: with fuel >= the height of the tree the complete engine, its
+   compute_root_layout and any sequence of passes succeed, whatever the caches and stored layouts hold, for every key equality `teq`.
+   The runners use fuel 64 and the harness generates trees of depth <= 64, so their fuel-exhaustion marker can never be printed.
+   The real-cache engines (Model/EngineReal.v `gmemo` / `memo_real`) are covered by the same induction replayed over the cache interface
+   (Proofs/EngineRealTotal.v): C01_real_cache_engine_total and its two instances below. *)
+From TV Require Proofs.EngineTotal Proofs.TaffyTotal Proofs.BlockAbsLocal Model.BlockAlg Model.BlockEngine Model.BlockAbs.
+From TV Require Model.EngineReal Proofs.EngineRealTotal Proofs.TaffyRealTotal Model.TaffyEngineReal Model.BlockEngineReal.
+Module TaffyTotality.
+  Import Num.Num Model.Common Model.Leaf Model.FlexAlgBase Model.BlockFlexEngine Model.TaffyEngine Model.TaffyRoot.
+
+  Theorem C01_taffy_algorithms_address_existing_children :
+    forall (T : Type) (N : Num T) (s : TStyle T) (st : list (TStyle T)) (i : FIn T),
+      EngineTotal.Bounded (FIn T) (LayoutOutput T) (FLay T) (length st) (real_algo s st i).
+  Proof. intros T N s st i. apply TaffyTotal.real_algo_bounded. Qed.
+  Print Assumptions C01_taffy_algorithms_address_existing_children.
+
+  Theorem C01_taffy_engine_total :
+    forall (T : Type) (N : Num T) (teq : T -> T -> bool) (fuel : nat)
+           (t : tree (TStyle T) (FIn T) (LayoutOutput T) (FLay T)) (i : FIn T),
+      EngineTotal.height (TStyle T) (FIn T) (LayoutOutput T) (FLay T) t <= fuel ->
+      exists o t', real_memo teq fuel t i = Some (o, t').
+  Proof. intros T N teq fuel t i Hh. apply TaffyTotal.real_memo_total. exact Hh. Qed.
+  Print Assumptions C01_taffy_engine_total.
+
+  (* the same for every instance of the engine's parameters (the C05 / C06 engine theorems quantify over them) *)
+  Theorem C01_taffy_engine_total_any_parameters :
+    forall (T : Type) (N : Num T) (teq : T -> T -> bool) (disp : TStyle T -> nat -> TKind)
+           (pre : Block.BStyle T -> BlockAlg.BIn T -> BlockAlg.BIn T) (abs_child : @BlockAlg.AbsChild T)
+           (leaf : TStyle T -> FIn T -> LayoutOutput T),
+      BlockAlg.AbsChildLocal abs_child ->
+      forall (fuel : nat) (t : tree (TStyle T) (FIn T) (LayoutOutput T) (FLay T)) (i : FIn T),
+        EngineTotal.height (TStyle T) (FIn T) (LayoutOutput T) (FLay T) t <= fuel ->
+        exists o t', taffy_memo teq disp pre abs_child leaf fuel t i = Some (o, t').
+  Proof. intros T N teq disp pre abs_child leaf Hloc fuel t i Hh. apply TaffyTotal.taffy_memo_total; assumption. Qed.
+  Print Assumptions C01_taffy_engine_total_any_parameters.
+
+  (* compute_root_layout, and TaffyTree::compute_layout called several times in a row on a fresh tree (what `vh taffytree cases` runs) *)
+  Theorem C01_taffy_compute_root_total :
+    forall (T : Type) (N : Num T) (teq : T -> T -> bool) (fuel : nat)
+           (t : tree (TStyle T) (FIn T) (LayoutOutput T) (FLay T)) (avail : Size (AvailableSpace T)),
+      EngineTotal.height (TStyle T) (FIn T) (LayoutOutput T) (FLay T) t <= fuel ->
+      exists t', real_compute_root teq fuel t avail = Some t'.
+  Proof. intros T N teq fuel t avail Hh. apply TaffyTotal.real_compute_root_total. exact Hh. Qed.
+  Print Assumptions C01_taffy_compute_root_total.
+
+  Theorem C01_taffy_layout_passes_total :
+    forall (T : Type) (N : Num T) (teq : T -> T -> bool) (fuel : nat) (k : sk (TStyle T)) (avails : list (Size (AvailableSpace T))),
+      EngineTotal.sheight (TStyle T) k <= fuel ->
+      exists ls t', real_layout_passes teq fuel k avails = Some (ls, t').
+  Proof. intros T N teq fuel k avails Hh. apply TaffyTotal.real_layout_passes_total. exact Hh. Qed.
+  Print Assumptions C01_taffy_layout_passes_total.
+
+  (* block containers + leaves (Model/BlockEngine.v, the engine of `vh blocktree`) *)
+  Theorem C01_bl_engine_total :
+    forall (T : Type) (N : Num T) (pre : Block.BStyle T -> BlockAlg.BIn T -> BlockAlg.BIn T) (fuel : nat)
+           (t : tree (BlockEngine.BNode T) (BlockAlg.BIn T) (Block.ChildOut T) (BlockAlg.BLayout T)) (i : BlockAlg.BIn T),
+      EngineTotal.height (BlockEngine.BNode T) (BlockAlg.BIn T) (Block.ChildOut T) (BlockAlg.BLayout T) t <= fuel ->
+      exists o t', BlockEngine.bl_memo pre BlockAbs.abs_child_block fuel t i = Some (o, t').
+  Proof. intros T N pre fuel t i Hh. apply TaffyTotal.bl_memo_total; [apply BlockAbsLocal.abs_child_block_local|exact Hh]. Qed.
+  Print Assumptions C01_bl_engine_total.
+
+  (* ... and the REAL-CACHE engines (Model/EngineReal.v `gmemo` over any cache implementation: Proofs/EngineRealTotal.v gmemo_total, the
+     induction of C01_memo_total replayed): the complete engine `trl_memo` and the block engine `blr_memo` the real-cache whole-tree
+     correspondences run -- every ghost equality, cache content, counters, stored layouts, input *)
+  Theorem C01_real_cache_engine_total :
+    forall (S In Out Lay : Type) (mode : In -> Engine.RunMode) (is_none : S -> bool) (hidden_out : Out) (zero_lay : Lay)
+           (algo : S -> list S -> In -> Engine.Alg In Out Lay) (mcalls : S -> list S -> In -> N)
+           (C : Type) (cget : C -> In -> option Out) (clossy : C -> In -> bool) (cstore : C -> In -> Out -> C) (cclear : C -> C),
+      (forall s st i, EngineTotal.Bounded In Out Lay (length st) (algo s st i)) ->
+      forall f t i, EngineRealTotal.gheight S Lay C t <= f ->
+        exists o t', EngineReal.gmemo S In Out Lay mode is_none hidden_out zero_lay algo mcalls C cget clossy cstore cclear f t i = Some (o, t').
+  Proof. intros until cclear. intros HB f t i Hh. apply EngineRealTotal.gmemo_total; assumption. Qed.
+  Print Assumptions C01_real_cache_engine_total.
+
+  Theorem C01_real_taffy_engine_total :
+    forall (T : Type) (N : Num T) (teq : T -> T -> bool) (fuel : nat) (t : @TaffyEngineReal.trtree T) (i : FIn T),
+      EngineRealTotal.gheight (TStyle T) (FLay T) (EngineReal.rcache (FIn T) (LayoutOutput T)) t <= fuel ->
+      exists o t', TaffyEngineReal.trl_memo teq fuel t i = Some (o, t').
+  Proof. intros T N teq fuel t i Hh. apply TaffyRealTotal.trl_memo_total. exact Hh. Qed.
+  Print Assumptions C01_real_taffy_engine_total.
+
+  Theorem C01_real_bl_engine_total :
+    forall (T : Type) (N : Num T) (teq : T -> T -> bool) (pre : Block.BStyle T -> BlockAlg.BIn T -> BlockAlg.BIn T) (fuel : nat)
+           (t : @BlockEngineReal.brtree T) (i : BlockAlg.BIn T),
+      EngineRealTotal.gheight (BlockEngine.BNode T) (BlockAlg.BLayout T) (EngineReal.rcache (BlockAlg.BIn T) (Block.ChildOut T)) t <= fuel ->
+      exists o t', BlockEngineReal.blr_memo teq pre BlockAbs.abs_child_block fuel t i = Some (o, t').
+  Proof. intros T N teq pre fuel t i Hh. apply TaffyRealTotal.blr_memo_total; [apply BlockAbsLocal.abs_child_block_local|exact Hh]. Qed.
+  Print Assumptions C01_real_bl_engine_total.
+
+  (* the premise is satisfiable: the 10-node example tree of C01_taffy_engine_example (all container kinds) has 3 levels *)
+  Example C01_taffy_engine_total_example :
+    EngineTotal.sheight (TStyle QNum.XQ) TaffyExample.ex_tree = 3%nat /\
+    exists ls t', real_layout_passes TaffyKey.xq_seqb 3%nat TaffyExample.ex_tree [] = Some (ls, t').
+  Proof. split; [vm_compute; reflexivity|]. apply TaffyTotal.real_layout_passes_total. vm_compute. auto. Qed.
+  Print Assumptions C01_taffy_engine_total_example.
+End TaffyTotality.
 
 Print Assumptions C01_memo_sound.
 Print Assumptions C01_root_output_equals_fresh.
